@@ -759,11 +759,13 @@ class ISMAGS:
                     # matters.
                     # So option 1) Hit it with a big hammer and simply make all
                     # orderings.
-                    permutations = cls._get_permutations_by_length(refined)
+                    # Every permutation consists of one group of cells per
+                    # cell length; all of these cells must be kept.
+                    permutations = list(cls._get_permutations_by_length(refined))
                     new_output = []
                     for n_p in output:
                         for permutation in permutations:
-                            new_output.append(n_p + list(permutation[0]))
+                            new_output.append(n_p + [cell for group in permutation for cell in group])
                     output = new_output
                 else:
                     for n_p in output:
